@@ -325,16 +325,23 @@ def clipLoFMin (a : AV) : AV :=
 def clipHiFMax (a : AV) : AV :=
   ⟨norm (a.cs.map clipHiC), if a.cs.contains Cls.pinf then .none else a.tag⟩
 
+/-- the operands compare equal: the result is value-equal to the first (provenance kept), but it
+    may be either object — they differ only when they are zeros of different sign (numpy's
+    `maximum(+0, −0)` is unspecified). -/
+def eqPick (a b : AV) : AV := if a.cs == b.cs then a else ⟨norm (a.cs ++ b.cs), a.tag⟩
+
 /-- Python builtin `max(l, r)` (what `ops.max` does on two Numbers). -/
 def maxPyA (i : In) (l r : AV) : AV :=
   match i.cmp l r with
   | some .lt => r
+  | some .eq => eqPick l r
   | some _ => l
   | none => ⟨lift2 maxPyC l.cs r.cs, .none⟩
 
 def minPyA (i : In) (l r : AV) : AV :=
   match i.cmp l r with
   | some .gt => r
+  | some .eq => eqPick l r
   | some _ => l
   | none => ⟨lift2 minPyC l.cs r.cs, .none⟩
 
@@ -342,12 +349,14 @@ def minPyA (i : In) (l r : AV) : AV :=
 def maxNpA (i : In) (a b : AV) : AV :=
   match i.cmp a b with
   | some .lt => b
+  | some .eq => eqPick a b
   | some _ => a
   | none => ⟨lift2 maxNpC a.cs b.cs, .none⟩
 
 def minNpA (i : In) (a b : AV) : AV :=
   match i.cmp a b with
   | some .gt => b
+  | some .eq => eqPick a b
   | some _ => a
   | none => ⟨lift2 minNpC a.cs b.cs, .none⟩
 
